@@ -1371,6 +1371,23 @@ class Engine(Executor):
         return [(st, SV(mk_s(f(Sc.sv(v.t), Sc.sv(args[0].t), Sc.sv(args[1].t))), "str"))]
 
     def b_str_join(self, st, args, kwargs, fn):
+        """sep.join(xs): exact for a list of known length whose items are strings, an unknown string otherwise"""
+        sep: SV = fn.bound
+        try:
+            lt = self.iter_lt(st, args[0])
+        except Unsupported:
+            lt = None
+        if lt is not None and lt.is_concrete() and isinstance(sep, SV) and sep.ty == "str":
+            items = lt.concrete_items()
+            if all(isinstance(x, SV) and x.ty == "str" for x in items):
+                if not items:
+                    return [(st, sv_str(""))]
+                terms = []
+                for k, x in enumerate(items):
+                    if k:
+                        terms.append(Sc.sv(sep.t))
+                    terms.append(Sc.sv(x.t))
+                return [(st, SV(mk_s(terms[0] if len(terms) == 1 else z3.Concat(*terms)), "str"))]
         return [(st, SV(mk_s(self.fresh("joined", z3.StringSort())), "str"))]
 
 
